@@ -100,9 +100,9 @@ class Check(FormulaCheck):
         q = tier == 'quick'
         specs = [{'campaign': 'sentinels'}, {'campaign': 'documented'}]
         for i in range(16):
-            specs.append({'campaign': 'variables', 'seed': seed, 'n': 2000 if q else 15000, 'i': i})
-            specs.append({'campaign': 'functions', 'seed': seed, 'n': 1200 if q else 10000, 'i': i})
-            specs.append({'campaign': 'unknown', 'seed': seed, 'n': 2500 if q else 20000, 'i': i})
+            specs.append({'campaign': 'variables', 'seed': seed, 'n': 2000 if q else 50000, 'i': i})
+            specs.append({'campaign': 'functions', 'seed': seed, 'n': 1200 if q else 30000, 'i': i})
+            specs.append({'campaign': 'unknown', 'seed': seed, 'n': 2500 if q else 80000, 'i': i})
         return specs
 
     def prepare(self, spec, rec):
